@@ -645,7 +645,7 @@ func mustRe(s string) *regexpT { return compile(s) }
 // capFor: in the quick tier the fast-actor scenarios (whose schedule spaces are far beyond any cap) get half
 // the budget of the slow-actor ones (which mostly finish).
 func capFor(c Cfg, base int, thorough bool) int {
-	if !thorough && !strings.Contains(c.Name, "/slow/") {
+	if !strings.Contains(c.Name, "/slow/") {
 		return base / 2
 	}
 	return base
@@ -756,9 +756,15 @@ func Build(prop, tier string) []explore.Scenario {
 		}
 		cfgs = append(cfgs, sc)
 	}
+	// slow-actor scenarios first: they are cheap and mostly finish, and scenarios are served in list order
+	sort.SliceStable(cfgs, func(i, j int) bool {
+		return strings.Contains(cfgs[i].Name, "/slow/") && !strings.Contains(cfgs[j].Name, "/slow/")
+	})
 	maxExecs := 24000
 	if thorough {
-		maxExecs = 4000000
+		// one happens-before cache = one worker per scenario: the cap is what keeps ~200 scenarios inside
+		// the tier's deadline on 16 workers
+		maxExecs = 400000
 	}
 	var out []explore.Scenario
 	for _, c := range cfgs {
